@@ -341,6 +341,9 @@ func TestTextParsers(t *testing.T) {
 // picks the target; the corpus is seeded with one valid image per PDU type and
 // with the hostile constants.
 func FuzzDecodeAny(f *testing.F) {
+	if os.Getenv("VERIF_FUZZ") == "" && rec.Env().Shard != 0 {
+		f.Skip("the seed corpus is replayed by shard 0 only")
+	}
 	for i, b := range gen.Bindings {
 		v := gen.SeedVals(b, uint64(i)*31+7, 2, 5)
 		if b.Spec.Hdr != ref.HdrNone {
